@@ -10,6 +10,13 @@ from .. import tlc, sigcases as S, gen as G, dictdoc as D
 from . import c01, c16
 
 
+
+def _lit(x):
+    """the signature cases spell the empty text literally (the identifier u_empty belongs to the text pool of the dict cases)"""
+    if isinstance(x, list):
+        return [_lit(y) for y in x]
+    return '' if x == 'u_empty' else x
+
 def objects(ctx):
     seen, out = set(), []
     for c in S.export(ctx) + c16.export(ctx):
@@ -53,8 +60,8 @@ def run(ctx):
             obs.setdefault('xmlback', ['leaf', '?raises'])
         try:
             s = get_object_as_json(inst, cls, ignore_wrappers=True, complex_as=dict)
-            obs['json'] = D.tree(json.loads(s.decode('utf8') if isinstance(s, bytes) else s))
-            obs['jsonback'] = D.unrev(S.from_native(t, json_loads(s, cls, ignore_wrappers=True, complex_as=dict)))
+            obs['json'] = _lit(D.tree(json.loads(s.decode('utf8') if isinstance(s, bytes) else s)))
+            obs['jsonback'] = _lit(D.unrev(S.from_native(t, json_loads(s, cls, ignore_wrappers=True, complex_as=dict))))
         except Exception as e:
             err['json'] = '%s: %s' % (type(e).__name__, e)
             obs.setdefault('json', ['str', '?raises'])
@@ -62,8 +69,8 @@ def run(ctx):
         try:
             import yaml
             s = get_object_as_yaml(inst, cls, ignore_wrappers=True, complex_as=dict)
-            obs['yaml'] = D.tree(yaml.safe_load(s))
-            obs['yamlback'] = D.unrev(S.from_native(t, yaml_loads(s, cls, ignore_wrappers=True, complex_as=dict)))
+            obs['yaml'] = _lit(D.tree(yaml.safe_load(s)))
+            obs['yamlback'] = _lit(D.unrev(S.from_native(t, yaml_loads(s, cls, ignore_wrappers=True, complex_as=dict))))
         except Exception as e:
             err['yaml'] = '%s: %s' % (type(e).__name__, e)
             obs.setdefault('yaml', ['str', '?raises'])
